@@ -135,6 +135,9 @@ class CtxRecorder:
                     self.ctx = cand
             except Exception:
                 self.ctx = None
+        if self.ctx is None and kind == 2:
+            # names and rows as one-shot iterators (documented: Iterable[str], Iterable of tuples)
+            self.ctx = self.C.Context(iter(self.olabels), (x for x in self.plabels), iter(bools))
         if self.ctx is None:
             self.ctx = self.C.Context(self.olabels, self.plabels, bools)
         self._members = None
